@@ -263,6 +263,16 @@ def generate(seed, prop):
             o["kwargs"] = o["kwargs"] if o["kwargs"] is not None else {}
             ops.append({"op": "update_peaks", "range": list(o["range"]), "rnum": o.get("rnum", "float"), "rtype": "tuple",
                         "kwargs": copy.deepcopy(o["kwargs"])})
+    # single-precision bounds (values read from a float32 array) are used in runs where EVERY bound is exactly representable
+    # in single precision: whether float32(x) 'equals' a nearby double is decided by numpy's promotion rules (weak Python
+    # floats), not by hvsrpy, so mixing the two would make 'the range changed' ill-defined
+    single = rng.random() < 0.15
+    for o in ops:
+        if "range" in o:
+            if single:
+                o["range"] = [None if v is None else float(np.float32(v)) for v in o["range"]]
+            elif o.get("rnum") == "np32":
+                o["rnum"] = "np"
     if rng.random() < 0.3:
         # the interpreter has a HISTORY: other results, on another frequency grid, were built, searched with some of the
         # very ranges used below and thrown away before this world's objects exist (history independence: nothing
@@ -285,7 +295,7 @@ def generate(seed, prop):
 
 def draw_op(rng, name, f, kind, curves, azimuths, fault_rate=0.0):
     if name == "update_peaks":
-        return {"op": name, "range": draw_range(rng, f), "rnum": rng.choice(["float", "float", "np", "int"]),
+        return {"op": name, "range": draw_range(rng, f), "rnum": rng.choice(["float", "float", "float", "np", "int", "npint", "np32"]),
                 "rtype": rng.choice(["tuple", "tuple", "list"]), "kwargs": draw_kwargs(rng),
                 # the caller keeps ONE options dict, edits it in place and hands it in again (a parameter sweep)
                 "kw_alias": rng.random() < 0.3}
@@ -296,7 +306,7 @@ def draw_op(rng, name, f, kind, curves, azimuths, fault_rate=0.0):
                 # the spelling 'log-normal' is accepted wherever 'lognormal' is (hvsrpy.constants.DISTRIBUTION_MAP)
                 "spell_fn": rng.random() < 0.12, "spell_mc": rng.random() < 0.12,
                 "range": draw_range(rng, f) if rng.random() < 0.6 else [None, None],
-                "rnum": rng.choice(["float", "float", "np", "int"]),
+                "rnum": rng.choice(["float", "float", "float", "np", "int", "npint", "np32"]),
                 "rtype": rng.choice(["tuple", "tuple", "list"]), "kwargs": draw_kwargs(rng)}
     if name == "set_masks":
         a = rng.randrange(len(curves))
@@ -542,6 +552,10 @@ def range_arg(op):
         vals = [None if v is None else np.float64(v) for v in vals]
     elif num == "int":
         vals = [None if v is None else (int(v) if float(v).is_integer() else v) for v in vals]
+    elif num == "npint":
+        vals = [None if v is None else (np.int64(v) if float(v).is_integer() else np.float64(v)) for v in vals]
+    elif num == "np32":
+        vals = [None if v is None else np.float32(v) for v in vals]
     return tuple(vals) if op.get("rtype", "tuple") == "tuple" else vals
 
 
